@@ -215,7 +215,7 @@ impl Sub for Structured {
         "a valid generated file (C14's writers, 1..6 records) or one of the repository's small test files, with 1..3 mutations (prefix, byte substitution / deletion / insertion, line duplication / removal / swap, ragged or longer row, header without matrix, missing final newline, invalid UTF-8, arbitrary bytes, empty), read by the reader of its own format (or, 1 in 5, another format's) under 2 generated chunkings; Reader::new and every next() must return (a panic fails) and a consumer stopping at the first Err / None must stop within len+2 calls; sweep = EVERY prefix of the repository's 8 small files and of a generated file per format, under chunk size 1 and a cursor; non-trivial = non-empty input on which the reader does not simply succeed as on the unmutated file"
     }
     fn cases(&self, tier: Tier) -> u64 {
-        tier.pick(30_000, 1_500_000)
+        tier.pick(100_000, 3_000_000)
     }
     fn strategy(&self, _tier: Tier) -> BoxedStrategy<Case> {
         let files: Vec<String> = SMALL_FILES.iter().map(|f| f.0.to_string()).collect();
